@@ -19,6 +19,8 @@ class Transc (α : Type) where
   lgamma : α → α
   /-- standard normal CDF Φ -/
   ncdf : α → α
+  /-- largest integer ≤ x, as a scalar -/
+  floor : α → α
   pi : α
 
 /-- Exact decimal/rational constant extracted from the source (num / den). -/
@@ -113,6 +115,7 @@ instance : Transc Float where
   rpow := Float.pow
   lgamma := FloatImpl.lgamma
   ncdf := FloatImpl.ncdf
+  floor := Float.floor
   pi := FloatImpl.pi
 
 end Pysersic
